@@ -49,6 +49,9 @@ pub enum RD {
     Txt(Vec<Vec<u8>>),
     /// any other type: raw wire RDATA (types whose canonical form is the wire form)
     Op(Vec<u8>),
+    /// any other type whose canonical form lower-cases an embedded name (RFC 4034 §6.2 list: NAPTR,
+    /// RRSIG, …): raw wire RDATA + the byte region `[start, start+len)` holding that name
+    OpL(Vec<u8>, usize, usize),
 }
 
 #[derive(Clone, Debug)]
@@ -139,7 +142,7 @@ impl RD {
             RD::Soa(..) => T_SOA,
             RD::Srv(..) => T_SRV,
             RD::Txt(_) => T_TXT,
-            RD::Op(_) => return None,
+            RD::Op(_) | RD::OpL(..) => return None,
         })
     }
 
@@ -162,6 +165,14 @@ impl RD {
                     None => "!".into(),
                 };
                 format!("op,{},{},{}", hex(raw), hex(&real_key(&rd)), c)
+            }
+            RD::OpL(raw, st, ln) => {
+                let rd = self.to_rdata(rtype)?;
+                let c = match real_canon(&rd) {
+                    Some(c) => hex(&c),
+                    None => "!".into(),
+                };
+                format!("opl,{},{st},{ln},{},{}", hex(raw), hex(&real_key(&rd)), c)
             }
         })
     }
@@ -191,6 +202,14 @@ impl RD {
                 ss.split(';').map(unhex).collect::<Option<Vec<_>>>()?
             }),
             ["op", raw] | ["op", raw, _, _] => RD::Op(unhex(raw)?),
+            ["opl", raw, st, ln] | ["opl", raw, st, ln, _, _] => {
+                let raw = unhex(raw)?;
+                let (st, ln): (usize, usize) = (st.parse().ok()?, ln.parse().ok()?);
+                if st + ln > raw.len() {
+                    return None;
+                }
+                RD::OpL(raw, st, ln)
+            }
             _ => return None,
         })
     }
@@ -219,7 +238,7 @@ impl RD {
             }
             RD::Srv(p, w, po, t) => RData::SRV(SRV::new(*p, *w, *po, t.to_name()?)),
             RD::Txt(ss) => RData::TXT(TXT::from_bytes(ss.iter().map(|s| &s[..]).collect())),
-            RD::Op(raw) => {
+            RD::Op(raw) | RD::OpL(raw, ..) => {
                 if [T_A, T_NS, T_CNAME, T_SOA, T_PTR, T_MX, T_TXT, T_AAAA, T_SRV].contains(&rtype) {
                     return None;
                 }
@@ -237,6 +256,11 @@ impl RD {
     pub fn ref_canon(&self) -> Option<Vec<u8>> {
         Some(match self {
             RD::A(o) | RD::Aaaa(o) | RD::Op(o) => o.clone(),
+            RD::OpL(o, st, ln) => {
+                let mut c = o.clone();
+                c[*st..*st + *ln].make_ascii_lowercase();
+                c
+            }
             RD::Ns(n) | RD::Cname(n) | RD::Ptr(n) => n.wire_lower(),
             RD::Mx(p, n) => [&p.to_be_bytes()[..], &n.wire_lower()].concat(),
             RD::Soa(m, r, s, rf, rt, e, mi) => {
@@ -815,7 +839,78 @@ pub fn name_pool(r: &mut Rng) -> Vec<N> {
     v
 }
 
-const OPAQUE_TYPES: &[u16] = &[48, 43, 52, 65280, 10, 13, 47, 61, 44, 99];
+const OPAQUE_TYPES: &[u16] = &[48, 43, 52, 65280, 10, 13, 47, 61, 44, 99, 64, 65, 65305, 35, 46, 64, 65];
+
+/// Opaque types that embed a domain name: SVCB (64), HTTPS (65), ANAME (65305), NSEC (47) keep its
+/// letter case in canonical form; NAPTR (35) and RRSIG (46) are on the RFC 4034 §6.2 list (lower-cased).
+pub const NAME_BEARING_OPAQUE: &[u16] = &[64, 65, 65305, 47, 35, 46];
+
+/// an embedded name in mixed case (never all lower case unless it has no letters)
+fn mixed_name(r: &mut Rng) -> N {
+    let mut n = gen_n(r);
+    n.fqdn = true;
+    if n.labels.is_empty() && r.chance(3, 4) {
+        n.labels.push(b"Target".to_vec());
+    }
+    let mut m = flip_case(r, &n, 50);
+    if m.is_lower() {
+        m = N { labels: m.labels.iter().map(|l| l.to_ascii_uppercase()).collect(), fqdn: true };
+    }
+    m
+}
+
+/// RDATA of an opaque type with an embedded mixed-case name
+pub fn gen_named_opaque(r: &mut Rng, ty: u16, lower: bool) -> RD {
+    // `lower`: the embedded name all lower case (so that a later case change is the only difference)
+    let n = if lower { lower_n(&mixed_name(r)) } else { mixed_name(r) };
+    let w = wire(&n.labels);
+    match ty {
+        64 | 65 => {
+            // SvcPriority, TargetName, SvcParams (ascending keys)
+            let prio = *r.pick(&[0u16, 1, 16]);
+            let mut o = prio.to_be_bytes().to_vec();
+            o.extend(&w);
+            if prio != 0 {
+                if r.chance(1, 2) {
+                    o.extend([0u8, 1, 0, 3, 2, b'h', b'2']); // alpn=h2
+                }
+                if r.chance(1, 2) {
+                    o.extend([0u8, 3, 0, 2, 0x01, 0xbb]); // port=443
+                }
+            }
+            RD::Op(o)
+        }
+        65305 => RD::Op(w),
+        47 => {
+            let mut o = w;
+            o.extend([0u8, 1, 0x40]);
+            RD::Op(o)
+        }
+        35 => {
+            // order, preference, flags, services, regexp, replacement
+            let mut o = vec![0u8, r.below(3) as u8, 0, r.below(3) as u8];
+            for s in [&b"U"[..], b"E2U+sip", b""] {
+                o.push(s.len() as u8);
+                o.extend_from_slice(s);
+            }
+            let st = o.len();
+            o.extend(&w);
+            RD::OpL(o, st, w.len())
+        }
+        _ => {
+            // RRSIG as a member of an RRset: type covered … key tag, signer, signature
+            let mut o = vec![0u8, 1, 13, 2, 0, 0, 14, 16];
+            o.extend(1_700_003_600u32.to_be_bytes());
+            o.extend(1_700_000_000u32.to_be_bytes());
+            o.extend((r.next() as u16).to_be_bytes());
+            let st = o.len();
+            o.extend(&w);
+            let n = r.range(4, 16) as usize;
+            o.extend(r.bytes(n));
+            RD::OpL(o, st, w.len())
+        }
+    }
+}
 
 fn gen_opaque_raw(r: &mut Rng, ty: u16) -> Vec<u8> {
     match ty {
@@ -915,8 +1010,12 @@ pub fn gen_rd(r: &mut Rng, tc: u16, pool: &[N], clean: bool) -> RD {
         }
         t => {
             for _ in 0..8 {
-                let raw = gen_opaque_raw(r, t);
-                let rd = RD::Op(raw.clone());
+                let lower = clean && r.chance(1, 2);
+                let rd = if NAME_BEARING_OPAQUE.contains(&t) && (t != 47 || r.chance(1, 2)) { gen_named_opaque(r, t, lower) } else { RD::Op(gen_opaque_raw(r, t)) };
+                let raw = match &rd {
+                    RD::Op(raw) | RD::OpL(raw, ..) => raw.clone(),
+                    _ => unreachable!(),
+                };
                 // keep only RDATA that the real decoder accepts and re-emits unchanged
                 if let Some(real) = rd.to_rdata(t) {
                     if real_key(&real) == raw {
@@ -1016,6 +1115,25 @@ fn gen_case(r: &mut Rng) -> Case {
                     RD::Mx(p, n) => RD::Mx(p, flip_case(r, &n, 50)),
                     RD::Srv(a, b2, c, n) => RD::Srv(a, b2, c, flip_case(r, &n, 50)),
                     RD::Soa(m, rn, a, b2, c, d2, e) => RD::Soa(flip_case(r, &m, 50), rn, a, b2, c, d2, e),
+                    // lower-cased embedded name: the case variant is a duplicate after canonicalisation
+                    RD::OpL(mut raw, st, ln) => {
+                        for x in raw[st..st + ln].iter_mut() {
+                            if x.is_ascii_alphabetic() && r.chance(1, 2) {
+                                *x ^= 0x20;
+                            }
+                        }
+                        RD::OpL(raw, st, ln)
+                    }
+                    // case-preserving types: the case variant is a different record
+                    RD::Op(mut raw) if NAME_BEARING_OPAQUE.contains(&tc) => {
+                        let orig = raw.clone();
+                        for x in raw.iter_mut().skip(2) {
+                            if x.is_ascii_alphabetic() && r.chance(1, 2) {
+                                *x ^= 0x20;
+                            }
+                        }
+                        if RD::Op(raw.clone()).to_rdata(tc).map(|rd| real_key(&rd) == raw).unwrap_or(false) { RD::Op(raw) } else { RD::Op(orig) }
+                    }
                     x => x,
                 }
             }
